@@ -83,10 +83,11 @@ def handle : Handler := fun op inp impl => do
     let tags := [s!"label:{(lab.splitOn ":").head!}", s!"at:{phaseTag pre}"] ++
       (match pre.ro.sub with | some s => if pre.gone then [] else [s!"state:{RV.Drv.RolloutSM.stateStr s.state}"] | none => [])
     let fwd := match jopt inp "fwd" with | some (.bool b) => b | _ => false
+    let del := match jopt inp "del" with | some (.bool b) => b | _ => false
     let implPanic := (jopt impl "panic").isSome
     let holds := if implPanic then [("C09.loop_total", false), ("C06.loop_total", false)] else
-      RV.Oracle.ClosedLoop.stateOracles post fwd ++ RV.Oracle.ClosedLoop.stepOracles pre lab post fwd
-    let tags := (if fwd then "scope:fwd" else "scope:any") :: (if RV.Oracle.ClosedLoop.fwdInv post then "fwdInv:holds" else "fwdInv:fails") :: tags
+      RV.Oracle.ClosedLoop.stateOracles post fwd del ++ RV.Oracle.ClosedLoop.stepOracles pre lab post fwd
+    let tags := (if fwd then "scope:fwd" else if del then "scope:del" else "scope:any") :: (if del then [if RV.Oracle.ClosedLoop.delInv post then "delInv:holds" else "delInv:fails"] else []) ++ (if RV.Oracle.ClosedLoop.fwdInv post then "fwdInv:holds" else "fwdInv:fails") :: tags
     match labelOf lab with
     | none => return { model := .null, holds := holds, tags := "uncompared" :: tags }
     | some l =>
